@@ -285,6 +285,8 @@ fn main() {
     sink.merge(struct_sweep(&run, &[&DTLS_RECORD], &recs, run.tier.pick(1, 2), &sfx, 48, &extra));
     let magic: Vec<vcommon::en::W> = cat::magic_hellos().into_iter().filter(|w| w.lens.first().map_or(false, |l| l.label == "dtls_length")).collect();
     sink.merge(struct_sweep(&run, &[&DTLS_HANDSHAKE], &magic, 0, &sfx, 64, &extra));
+    sink.merge(struct_sweep(&run, &[&DTLS_HANDSHAKE], &wrapped(&cat::dtls_handshake_messages(), 1), 0, &sfx, 16, &extra));
+    sink.merge(struct_sweep(&run, &[&DTLS_RECORD], &wrapped(&cat::dtls_records(), 1), 0, &sfx, 16, &extra));
     for server in [true, false] {
         sink.merge(grid_sweep(&run, &[&DTLS_HANDSHAKE], 64, &|c, n| cat::hello_grid(server, true, thorough, c, n), &no_wrap, &extra));
         sink.merge(grid_sweep(&run, &[&DTLS_RECORD], 64, &|c, n| cat::hello_grid(server, true, false, c, n), &|m| cat::dtls_record(0x16, 0xfefd, 0, 1, |w| { w.append(m); }), &extra));
